@@ -320,9 +320,8 @@ def dump_order(crate):
                 return False
             # the blob size handed to the index is the file size
             bs = evs[i_dump][2][1]
-            if not (isinstance(bs, Sym) and P.prove(ex, res, o, bs.t == bo.fields[(None, crate.field_index("Blob", "file"))]
-                                                    .fields[(None, crate.field_index("File", "inner"))].fields[(None, 7001)]
-                                                    .fields[(None, crate.field_index("FileInner", "size"))].fields[(None, 7002)].t,
+            finner = P.arc_payload(o, bo.fields[(None, crate.field_index("Blob", "file"))].fields[(None, crate.field_index("File", "inner"))])
+            if not (isinstance(bs, Sym) and P.prove(ex, res, o, bs.t == finner.fields[(None, crate.field_index("FileInner", "size"))].fields[(None, 7002)].t,
                                                     "index records the current blob size")):
                 return False
             d_ok = _ev_result_ok(ex, o, evs[i_dump])
